@@ -1,6 +1,8 @@
 (* Executable model for C20: libsigopt/aux/validate_schema.py (validate, process_error, get_path_string), the error
    classes of libsigopt/aux/errors.py, and the specification `conforms` of the JSON-schema keywords (draft 2020-12
    semantics as implemented by jsonschema 4.x) that the correspondence compares with jsonschema's accept/reject.
+   Draft 3 enters through its one construct whose error record has a shape of its own: the boolean `required` inside the
+   sub-schemas of `properties` (SRequired3, the draft-3 record shape of wf_verr, the boolean branch of process_error).
    No proofs here.  Strings are lists of code points (N); numbers are Z (Python int) or Q (Python float, exact).
    Regular expressions are oracles: rxm for the keyword `pattern`, pm for patternProperties (see pat_matched). *)
 From Coq Require Import List ZArith NArith QArith Bool Arith Ascii String.
@@ -125,6 +127,9 @@ Inductive schema :=
 | SAnd (l : list schema)                 (* {k1:…, k2:…} and allOf *)
 | SType (ts : list jtype)
 | SRequired (ks : list str)
+| SRequired3 (fl : list (str * bool))    (* draft 3: the boolean `required` found inside the sub-schemas of `properties`
+                                            (key, flag), read by the keyword `properties` itself: an object lacking a
+                                            declared property whose flag is true does not conform; false = no constraint *)
 | SProps (ps : list (str * schema)) (pps : list (str * schema)) (addl : option schema)
 | SItems (s : schema)
 | SMin (q : Q) | SMax (q : Q) | SExMin (q : Q) | SExMax (q : Q)
@@ -165,6 +170,11 @@ Section Conforms.
     | SAnd l => forallb (fun k => conforms k v) l
     | SType ts => existsb (has_type v) ts
     | SRequired ks => match v with JObj kvs => forallb (fun k => mem_str k (keys kvs)) ks | _ => true end
+    | SRequired3 fl =>
+        match v with
+        | JObj kvs => forallb (fun kb : str * bool => negb (snd kb) || mem_str (fst kb) (keys kvs)) fl
+        | _ => true
+        end
     | SProps ps pps addl =>
         match v with
         | JObj kvs =>
@@ -419,17 +429,33 @@ Definition m_type (has_key : bool) : msg :=
   if has_key then [Lit "Invalid type for "; Dyn; Dyn; Lit "expected type "; Dyn]
   else [Lit "Invalid type"; Dyn; Lit "expected type "; Dyn].
 
-Definition required_outcome (vv inst : json) : outcome :=
-  match inst with
-  | JObj kvs =>
-      match iter_json vv with
-      | None => Raw RTypeError
-      | Some ks =>
-          if forallb hashable ks
-          then Lib (EMissingKey (hd_error (filter (fun k => negb (key_in k kvs)) ks)) m_missing)
-          else Raw RTypeError
+(* e.path[-1] as a Python value: a key (str) or an array position (int); None for an empty path *)
+Fixpoint last_part (path : list pathpart) : option pathpart :=
+  match path with
+  | [] => None
+  | [p] => Some p
+  | _ :: r => last_part r
+  end.
+Definition part_json (p : pathpart) : json := match p with PKey k => JStr k | PIdx n => JInt (Z.of_nat n) end.
+
+Definition required_outcome (vv inst : json) (path : list pathpart) : outcome :=
+  match vv with
+  | JBool _ =>
+      (* isinstance(e.validator_value, bool): draft 3, `required` is a boolean of the property's own sub-schema and the
+         missing key is the last element of the error's path *)
+      Lib (EMissingKey (option_map part_json (last_part path)) m_missing)
+  | _ =>
+      match inst with
+      | JObj kvs =>
+          match iter_json vv with
+          | None => Raw RTypeError
+          | Some ks =>
+              if forallb hashable ks
+              then Lib (EMissingKey (hd_error (filter (fun k => negb (key_in k kvs)) ks)) m_missing)
+              else Raw RTypeError
+          end
+      | _ => match subscript0 vv with inl x => Raw x | inr k => Lib (EMissingKey (Some k) m_missing) end
       end
-  | _ => match subscript0 vv with inl x => Raw x | inr k => Lib (EMissingKey (Some k) m_missing) end
   end.
 
 Fixpoint process_error (e : verr) : outcome :=
@@ -446,7 +472,7 @@ Fixpoint process_error (e : verr) : outcome :=
           end
       | VMaxProps => Lib (ESigopt (m_props false))
       | VMinProps => Lib (ESigopt (m_props true))
-      | VRequired => required_outcome vv inst
+      | VRequired => required_outcome vv inst path
       | VMinimum => Lib (EInvalidValue (m_bound true))
       | VMaximum => Lib (EInvalidValue (m_bound false))
       | VMinLength | VMinItems => Lib (EInvalidValue (m_length true))
@@ -464,7 +490,8 @@ Fixpoint process_error (e : verr) : outcome :=
   end.
 
 (* ------------------------------------------------------------------------------------------------
-   wf_verr: what jsonschema (draft 4 and later) guarantees about a ValidationError it raises *)
+   wf_verr: what jsonschema guarantees about a ValidationError it raises (the record shapes of the drafts whose
+   `required` is a list of keys - 4 and later - and the draft-3 shape of a `required` record) *)
 Definition type_of_name (s : str) : option jtype :=
   if str_eqb s (codes "null") then Some TNull else
   if str_eqb s (codes "boolean") then Some TBoolean else
@@ -517,6 +544,14 @@ Fixpoint wf_verr (e : verr) : bool :=
       | VRequired =>
           match inst, vv with
           | JObj kvs, JArr ks => forallb is_str ks && existsb (fun k => negb (key_in k kvs)) ks
+          (* draft 3 (_legacy_keywords.properties_draft3): raised for a declared property that is absent from the
+             instance and whose sub-schema says `required: true`; validator_value = that boolean, instance = the parent
+             object, schema = the schema holding `properties`, and the property name is appended to the path *)
+          | JObj kvs, JBool true =>
+              match last_part path with
+              | Some (PKey k) => negb (mem_str k (keys kvs)) && mem_str k sprops
+              | _ => false
+              end
           | _, _ => false
           end
       | VMinimum => rel2 Qltb (numval inst) (numval vv)
